@@ -163,7 +163,6 @@ ref Model_units__s(ref self, sid name)
 }
 bool Model_hasUnits__s(ref self, sid name) { return Model_units__s(self, name) != 0; }
 /* string concatenation for the descriptions: some string */
-sid sid_concat(sid a, sid b) { sid r; return r; }
 
 void h_link(void)
 {
